@@ -134,7 +134,10 @@ class HttpxTransport:
 
         # 2. Merge headers passed specifically for this request (overriding transport defaults)
         if "headers" in current_request_kwargs and isinstance(current_request_kwargs["headers"], dict):
-            prepared_headers.update(current_request_kwargs["headers"])
+            # Generated methods pass integer/boolean/number header parameters as they are; httpx only accepts
+            # str or bytes header values, so everything else is sent in its string form.
+            for name, value in current_request_kwargs["headers"].items():
+                prepared_headers[name] = value if isinstance(value, (str, bytes)) else str(value)
 
         # 3. Apply authentication plugin or bearer token (which can further modify headers)
         # We pass a temporary request_args dict containing only the headers to the auth plugin,
